@@ -306,11 +306,13 @@ func genC16(c *Ctx) {
 		c.mark(fmt.Sprintf("cut v%d len %d", ver, dl))
 	}
 	// single crafted shares with extreme sequence lengths
-	for i := 0; i < 60*c.scale; i++ {
+	for i := 0; i < 160*c.scale; i++ {
 		ns := pick(r, [][]byte{txNs, pfbNs, blobNamespaces(r, 1)[0], tailNs, prpNs})
 		raw := craftShare(r, ns, byte(r.Intn(4)), pick(r, []uint32{0, 38, 100, 600}))
 		if raw[29]&1 == 1 {
-			binary.BigEndian.PutUint32(raw[30:34], pick(r, []uint32{0, 1, 400, 478, 479, 100000, 1<<32 - 1, 1<<32 - 20, 1<<32 - 21}))
+			// around every payload capacity a sequence-start share can have: 454 (compact, version 1 accessor),
+			// 458 (sparse version 1), 474 (compact), 478 (sparse)
+			binary.BigEndian.PutUint32(raw[30:34], pick(r, []uint32{0, 1, 400, 453, 454, 455, 457, 458, 459, 470, 473, 474, 475, 477, 478, 479, 100000, 1<<32 - 1, 1<<32 - 20, 1<<32 - 21}))
 		}
 		c.add("parseblobs", hx(raw))
 		c.add("parsetxs", hx(raw))
